@@ -119,3 +119,27 @@ Example cx_restore_examples :
           [(0x1.8p+0, 0x1p+1); (neg_zero, (-0x1p-1)); (zero, (-0x1p+0)); (0x1.999999999999ap-4, 0x1.5555555555555p-2);
            ((-0x1.4p+0), 0x1p-1074); (0x1.fffffffffffffp+1023, (-0x1p-1022))]%float = true.
 Proof. vm_compute. reflexivity. Qed.
+
+(** boundary of the encoder's rule "imaginary part [== 0] -> a real number":
+    every non-zero imaginary part, however small (the smallest denormal
+    included), keeps the [{"real","imag"}] form and is restored bit for bit;
+    only [+0.0] and [-0.0] give a bare real *)
+Definition tiny_imags : list float :=
+  [0x1.1a62633145c07p-53; (-0x1.1a62633145c07p-53); 0x1.9c5c8e6d3a2a1p-29; (-0x1.19799812dea11p-40);
+   0x0.0000000000001p-1022; (-0x0.0000000000001p-1022); 0x1p-1022; 0x1p-52; 0x1.542d0ac7e8d2fp-27]%float.
+
+Example enc_cx_boundary :
+  forallb (fun b : float =>
+             forallb (fun a : float =>
+                        match enc_json (PCx a b) with
+                        | PDict [("real", PFlt r); ("imag", PFlt i)] =>
+                            f_biteq r a && f_biteq i b
+                            && match convert_complex (enc_json (PCx a b)) with
+                               | PCx a' b' => f_biteq a' a && f_biteq b' b
+                               | _ => false
+                               end
+                        | _ => false
+                        end) [(-0x1p+0); 0x1p-1; 0x1.8p+0; 0x1p-1074; (-0x1p-1)]%float) tiny_imags
+  && forallb (fun b : float => match enc_json (PCx (-0x1p+0) b) with PFlt r => f_biteq r (-0x1p+0) | _ => false end)
+             [zero; neg_zero]%float = true.
+Proof. vm_compute. reflexivity. Qed.
